@@ -100,10 +100,15 @@ void account(const verif::Case &c, int verdict) {
     (void)newlabel;
 }
 
+// verdict of the static-initialisation probe (harness/common/st_static_init_probe.h), taken once when the engine starts; a failed probe
+// makes every case of this process a violation (whatever its bytes), so that the saved replay file reproduces it in a fresh process
+std::string g_static_verdict;
+
 // Runs one case; when it is worth a sample, re-runs it with text rendering on
 // (cases are pure functions of their bytes).
 int run_case(const uint8_t *d, size_t n, bool force_text, verif::Case &c) {
     g_cur_data = d; g_cur_size = n;
+    if (!g_static_verdict.empty()) { c.failure = g_static_verdict; c.text = "(any case) static-initialisation probe of this process"; account(c, verif::CASE_VIOLATION); return verif::CASE_VIOLATION; }
     verif::case_environment(d, n);
     arm_watchdog(20);
     c.want_text = force_text;
@@ -211,6 +216,7 @@ int main(int argc, char **argv) {
     signal(SIGABRT, on_fatal_signal);
     signal(SIGVTALRM, on_watchdog);
 
+    if (mode != "info") g_static_verdict = verif_static_init_verdict();
     if (mode == "info") {
         printf("{\"id\":\"%s\",\"max_len\":%zu,\"has_enumerator\":%s,\"level\":\"%s\",\"rule\":\"%s\"}\n", verif_info.id,
                verif_info.max_len, verif_info.has_enumerator ? "true" : "false", verif_info.level, json_escape(verif_info.rule).c_str());
@@ -259,7 +265,8 @@ int main(int argc, char **argv) {
         int tier = atoi(argval(argc, argv, "--tier", "0"));
         verif::EnumReport r;
         arm_enum_watchdog();
-        long n = verif_enumerate(shard, nshards, tier, r);
+        if (!g_static_verdict.empty()) { r.failure = g_static_verdict; r.failing_case = "(any case) static-initialisation probe of this process"; }
+        long n = g_static_verdict.empty() ? verif_enumerate(shard, nshards, tier, r) : 0;
         arm_watchdog(0); signal(SIGVTALRM, on_watchdog);
         (void)n;
         S.evaluations = r.evaluations; S.nontrivial = r.nontrivial; S.excluded_known = r.excluded_known;
